@@ -76,7 +76,9 @@ class RepetitionPulseTemplate(LoopPulseTemplate, ParameterConstrainer, Measureme
         self._register(registry=registry)
 
     def with_repetition(self, repetition_count: Union[int, str, ExpressionScalar]) -> 'PulseTemplate':
-        if self.identifier:
+        if self.identifier or self.measurement_declarations:
+            # measurements of a repetition are played once per execution of the repetition template. Merging the
+            # counts would play them once in total instead of once per outer repetition
             return RepetitionPulseTemplate(self, repetition_count)
         else:
             return RepetitionPulseTemplate(
